@@ -24,12 +24,24 @@ enum Kind {
     K_IGNORE_LEAKS,
     K_PTR_SET,       // a = target, b = value index
     K_PLUGIN_ERROR,  // plugin post action: adds a failure; s2 = token
+    // separate-process mode (C11): ways the child dies inside a phase (real fork) ...
+    K_DIE_SIGNAL,    // a = signal: raise(a)
+    K_DIE_EXIT,      // a = status: _exit(a)
+    K_DIE_ABORT,     // abort()
+    K_DIE_STOP,      // raise(SIGSTOP): the parent sees a stopped child, continues it, the test goes on
+    // ... and what the parent's fork/waitpid seams answer for this test (phase PH_PROC; synthetic or injected before the real call)
+    K_FORK_FAIL,
+    K_W_EINTR,       // a = how many consecutive EINTR results
+    K_W_ERR,         // a = errno (not EINTR)
+    K_W_STOP,        // a = signal: synthetic 'stopped' status
+    K_W_EXIT,        // a = exit status: synthetic terminal status
+    K_W_SIGNAL,      // a = signal, b = core flag: synthetic terminal status
     K_COUNT
 };
 const char* kindName(int k);
 int kindFromName(const char* s);
 
-enum { PH_SETUP = 0, PH_BODY = 1, PH_TEARDOWN = 2, PH_PRE = 3, PH_POST = 4 };
+enum { PH_SETUP = 0, PH_BODY = 1, PH_TEARDOWN = 2, PH_PRE = 3, PH_POST = 4, PH_PROC = 5 };
 enum { N_SLOTS = 48, N_TARGETS = 8, N_VALUES = 6, MAX_SET = 32 };
 enum { N_PASS_KINDS = 14, N_FAILCPP_KINDS = 8, N_FAILC_KINDS = 4 };
 
@@ -46,12 +58,13 @@ struct Obs {           // everything observed in one run
     int ret; bool parsedOk; long depthAtStart, depthAtEnd, maxDepth; bool ctxOkAtEnd;
     int64_t finalProbe; bool slotLeftovers;
     Str console; Vec<SimFile> files; uint64_t writesAfterClose, badHandle;
+    Vec<int64_t> procLog;          // C11: (test, what, value) triples: 1 fork, 2 waitpid call, 3 kill(sig), 4 script exhausted (hang), 5 fork failed
     Str finalReport; int pluginCount, pluginCountExpected; int removedStillFound;
     Obs() : ret(0), parsedOk(true), depthAtStart(0), depthAtEnd(0), maxDepth(0), ctxOkAtEnd(true), finalProbe(0), slotLeftovers(false), pluginCount(0), pluginCountExpected(0), removedStillFound(0), writesAfterClose(0), badHandle(0) {}
 };
 
 struct Config {        // derived from Desc.p
-    int repeat, reverse, shuffle, runIgnored, verbose, color, output; uint64_t shuffleSeed; Str package;
+    int repeat, reverse, shuffle, runIgnored, verbose, color, output, separate; uint64_t shuffleSeed; Str package;
     bool hasExceptions;
 };
 Config configOf(const Desc& d);
